@@ -432,7 +432,7 @@ func TestVerif_C37_globals(t *testing.T) {
 	vx.Run(t, "C37", func(c *vx.Ctx) {
 		bounds := vx.Pick(c, []int{2}, []int{-1})
 		c.Rule("concurrent part: for every unordered pair of calls from a small alphabet (Message.Unpack followed by Pack and Unpack of the result on two valid messages — compression pointers in every section; TXT/SRV/SVCB/HTTPS/unknown/OPT records — and on a pointer loop, pointer chains of 10 and 11, a truncated message and section counts beyond the data; a Parser driven record by record with X(), SkipX(), XHeader+typed, XHeader+SkipX, XHeader+X, XHeader+XHeader+typed in rotating assignments on the valid messages, on RDLENGTH one long / one short / beyond the message, on counts beyond the data and on names that must be rejected; AllX/SkipAllX masks; a Parser abandoned at an error, Start()ed on a too-short input and then on a valid message) two threads run one call each (thorough: twice each, one more call) on their own fresh Parser / Message on the instrumented dns/dnsmessage source starting from the package's initial state; every schedule (quick: at most 2 preemptions; thorough: unbounded) at the scheduling points — before each statement mentioning a written package-level variable " + fmt.Sprint(zzWrittenGlobals) + ", sync.Once, sync.Pool Get/Put, sync.Mutex — is executed and each call must return exactly (every value and every error of every Parser method called, in order) what it returns alone on the uninstrumented package")
-		c.Assume("concurrent part: statement granularity at mentions of written package-level variables; accesses to heap objects only reachable from them and mutation through method calls are not scheduling points, and there is no scheduling point after a call's last package-state access; if the package has no written package-level variable there is exactly one schedule per pair (the calls cannot interact through package state) and the part degenerates to a sequential differential test of the instrumented against the uninstrumented package; Parsers and Messages are never shared between the two threads (input byte slices are, read-only); parser offsets are observed only through the records parsed afterwards")
+		c.Assume("concurrent part: statement granularity at mentions of written package-level variables; accesses to heap objects only reachable from them and mutation through method calls are not scheduling points, and there is no scheduling point after a call's last package-state access; if the package has no written package-level variable the only scheduling choice per pair is which call runs first (the calls cannot interact through package state) and the part degenerates to a sequential differential test of the instrumented against the uninstrumented package; Parsers and Messages are never shared between the two threads (input byte slices are, read-only); parser offsets are observed only through the records parsed afterwards")
 		seq := 0
 		if !c.Quick() {
 			seq = 1
